@@ -5,8 +5,11 @@ import (
 	"fmt"
 	"sync/atomic"
 	"testing"
+	"testing/synctest"
 	"time"
 
+	"github.com/platinummonkey/go-concurrency-limits/core"
+	"github.com/platinummonkey/go-concurrency-limits/limiter"
 	"github.com/platinummonkey/go-concurrency-limits/patterns/pool"
 )
 
@@ -22,6 +25,8 @@ func genWCfg(r *Rng, kinds []string) WCfg {
 		c.Kind, c.Deadline = 2, r.Pick(5_000_000, 20_000_000, 100_000_000)
 		if r.Bool(6) {
 			c.Deadline = ZeroDeadline // built with the zero time.Time: a deadline long past, every call is refused at once
+		} else if r.Bool(6) {
+			c.Deadline = FarDeadline // "effectively never": blocked callers wait for a release or their own cancellation
 		}
 	case "with-defaults", "lifo-defaults":
 		c.Kind, c.MaxB, c.Timeout, c.Fifo = 3, 100, 1_000_000_000, false
@@ -115,7 +120,7 @@ func driveWaiters(t *testing.T, prop string, vias []string, nCases, steps int, o
 								}
 							}
 						}
-						if cfg.Kind == 2 {
+						if cfg.Kind == 2 && cfg.Deadline != FarDeadline {
 							if x := w.Absdl - nowNs(); x > -2 {
 								d = x + r.Pick(-1, 0, 1, -400_000, -900_000)
 							}
@@ -547,6 +552,15 @@ func TestC19(t *testing.T) {
 			if w.Strat != nil && int64(w.busy()) != holders {
 				fail("busy-not-holders", fmt.Sprintf("the pool's limiter counts %d tokens out, %d callers hold one", w.busy(), holders))
 			}
+			// settled: a token is never left free while a caller (other than the one whose context was cancelled) is waiting for it
+			if holders < cfg.Limit && (w.Strat == nil || int64(w.busy()) < cfg.Limit) {
+				for i, c := range w.Callers {
+					if c.status == 0 && i != cancelledIdx {
+						fail("token-free-while-waiting", fmt.Sprintf("%d of %d tokens are held and caller %d is still waiting (nothing in progress)", holders, cfg.Limit, i))
+						break
+					}
+				}
+			}
 		}
 		if _, err := RunScenario(t, cfg, tr, gen, after, 200); err != nil {
 			rep.Count("constructor-error")
@@ -609,6 +623,82 @@ func TestC19Sustained(t *testing.T) {
 		rep.Distinct("sustained", fmt.Sprint(po))
 		if frozen != "" {
 			rep.Violate("pool:frozen", frozen+fmt.Sprintf(" (ordering %v, window size 10, window 1 ms)", po), map[string]interface{}{"component": "pool", "ordering": fmt.Sprint(po)})
+		}
+	}
+}
+
+// C13: a caller's own context deadline.  The queue limiter's bound is its backlog timeout; a context deadline (earlier, later or already
+// past) changes nothing unless cancellation eviction is enabled, in which case the caller leaves when its context is done.
+func TestC13CtxDeadline(t *testing.T) {
+	rep := NewReport("C13ctx")
+	defer rep.Write(t)
+	type sc struct {
+		evict   bool
+		timeout time.Duration // backlog timeout
+		ctxIn   time.Duration // context deadline relative to arrival (negative: already past)
+		want    time.Duration // expected instant of the refusal relative to arrival
+	}
+	cases := []sc{
+		{false, time.Second, 300 * time.Millisecond, time.Second},
+		{false, time.Second, -time.Millisecond, time.Second},
+		{false, time.Second, 5 * time.Second, time.Second},
+		{false, 20 * time.Millisecond, time.Millisecond, 20 * time.Millisecond},
+		{true, time.Second, 300 * time.Millisecond, 300 * time.Millisecond},
+		{true, time.Second, 5 * time.Second, time.Second},
+		{true, time.Second, -time.Millisecond, 0},
+	}
+	for _, via := range []string{"config", "lifo", "fifo"} {
+		for _, c := range cases {
+			if c.evict && via != "config" {
+				continue
+			}
+			synctest.Test(t, func(t *testing.T) {
+				g, st := newGated(1)
+				var q core.Limiter
+				switch via {
+				case "config":
+					q = limiter.NewQueueBlockingLimiterFromConfig(g, limiter.QueueLimiterConfig{MaxBacklogSize: 3, MaxBacklogTimeout: c.timeout, BacklogEvictDoneCtx: c.evict})
+				case "lifo":
+					q = limiter.NewLifoBlockingLimiter(g, 3, c.timeout, nil)
+				default:
+					q = limiter.NewFifoBlockingLimiter(g, 3, c.timeout)
+				}
+				holder, _ := q.Acquire(context.Background())
+				ctx, cancel := context.WithDeadline(context.Background(), time.Now().Add(c.ctxIn))
+				defer cancel()
+				t0 := time.Now()
+				type ans struct {
+					ok bool
+					at time.Duration
+				}
+				done := make(chan ans, 1)
+				go func() { _, ok := q.Acquire(ctx); done <- ans{ok, time.Since(t0)} }()
+				var a ans
+				select {
+				case a = <-done:
+				case <-time.After(time.Hour):
+					a = ans{false, -1}
+				}
+				rep.Evaluations++
+				rep.Distinct("ctx-deadline", fmt.Sprint(via, c.evict, c.timeout, c.ctxIn))
+				rp := map[string]interface{}{"component": "queue-context-deadline", "via": via, "evict": c.evict, "backlog_timeout_ns": int64(c.timeout), "ctx_deadline_ns": int64(c.ctxIn)}
+				switch {
+				case a.at < 0:
+					rep.Violate("queue:blocked-past-bound:context-deadline", fmt.Sprintf("via %s, eviction %v, backlog timeout %v, context deadline at %+v: the caller is still blocked an hour later", via, c.evict, c.timeout, c.ctxIn), rp)
+				case a.ok:
+					rep.Violate("queue:granted-without-capacity", "a caller was granted although the only token was held throughout", rp)
+				case a.at < c.want:
+					rep.Violate("queue:refused-early:context-deadline", fmt.Sprintf("via %s, eviction %v, backlog timeout %v, context deadline at %+v: refused after %v, its bound is %v", via, c.evict, c.timeout, c.ctxIn, a.at, c.want), rp)
+				case a.at > c.want:
+					rep.Violate("queue:blocked-past-bound:context-deadline", fmt.Sprintf("via %s, eviction %v, backlog timeout %v, context deadline at %+v: refused after %v, its bound is %v", via, c.evict, c.timeout, c.ctxIn, a.at, c.want), rp)
+				}
+				if b := st.GetBusyCount(); b != 1 {
+					rep.Violate("queue:token-count:context-deadline", fmt.Sprintf("one holder, busy %d", b), rp)
+				}
+				holder.OnIgnore()
+				time.Sleep(2 * time.Hour)
+				synctest.Wait()
+			})
 		}
 	}
 }
